@@ -61,6 +61,16 @@ def cells(tier):
             out.append(cell(f"simple s{size} S3|T1 {dn}", sc, MON))
         sc = scen(pool(size, "SimpleTaskPool", args=1, kwargs=0, fault=[1]), [[S("S", 3)], [LOCK]], outcomes=["ret"])
         out.append(cell(f"simple s{size} S3 fault[1] lock", sc, MON))
+    # ended tasks forgotten by flush(), then the (so far unbounded, or larger) pool is given a small size: the next
+    # request must still get all its invocations
+    for old in ["inf", 3]:
+        for new in [1, 2]:
+            sc = scen(pool(old), [[A("A", 2)], [FLUSH, ["set_size", new], A("B", 2)]], outcomes=["ret"])
+            out.append(cell(f"s{old} A2|flush,size{new},B2", sc, MON))
+        sc = scen(pool(old, "SimpleTaskPool"), [[S("S", 2)], [FLUSH, ["set_size", 1], S("T", 2)]], outcomes=["ret"])
+        out.append(cell(f"simple s{old} S2|flush,size1,T2", sc, MON))
+    sc = scen(pool("inf"), [[A("A", 3)], [FLUSH, ["set_size", 5], ["set_size", 2], A("B", 2)], [LOCK, UNLOCK]], outcomes=["ret"])
+    out.append(cell("sinf A3|flush,size5,size2,B2|lock,unlock", sc, MON))
     if not q:
         for size in [1, 2, 3]:
             sc = scen(pool(size), [[A("A", 3, args=2, kwargs=2)], [A("B", 2)], [A("C", 1)], [LOCK], [GAC]], outcomes=["ret", "exc"])
